@@ -266,3 +266,39 @@ PLANS["C14"] = dict(
                                          "INVARIANT NotAccepted", "CONSTRAINT HighWater", "POSTCONDITION Report", "CHECK_DEADLOCK FALSE"))),
     ],
 )
+
+# ------------------------------------------------------------------ C15
+def c15_cfg(tier, seed):
+    if tier == "thorough":
+        consts = ['URLs = {"u1", "u2"}', "Bundles <- MCBundlesSmall", 'Corruptions = {"truncate", "swapped", "deltaNotDER"}', "Depth = 4"]
+    else:
+        consts = ['URLs = {"u1", "u2", "u3"}', "Bundles <- MCBundles", 'Corruptions = {"truncate", "bitflip", "foreignJSON", "empty", "baseNotDER", "deltaNotDER", "swapped"}', "Depth = 3"]
+    return mc_cfg(["Inv_C15", "Inv_Frame", "Inv_NoEffect", "Inv_Emit"], consts=consts)
+
+
+def c15_cfg_wide(tier, seed):
+    consts = ['URLs = {"u1", "u2", "u3", "u4", "u5", "u6", "u7"}', "Bundles <- MCBundlesSmall", 'Corruptions = {"truncate"}', "Depth = 2"]
+    return mc_cfg(["Inv_C15", "Inv_Frame", "Inv_NoEffect", "Inv_Emit"], consts=consts)
+
+
+C15_TRACE = cfg_lines("CONSTANTS", " URLs <- TURLs", ' Bundles = {}', ' Corruptions = {}', ' TraceFile = "trace.ndjson"', "SPECIFICATION Spec",
+                      "POSTCONDITION AllConsumed", "CHECK_DEADLOCK FALSE")
+
+PLANS["C15"] = dict(
+    level_text="TLC enumerates every history of store / refused store / read / corruption operations (depth 3 over 3 URLs x 5 bundles x 7 "
+               "corruption kinds; depth 4 over a reduced alphabet; depth 2 over 7 URLs) of the sequential cache model and checks that a read "
+               "answers only the last bundle stored under exactly that URL while fresh, with a frame lemma (other URLs never affected); every "
+               "history is executed on the real FileCache in a sandbox (near-identical, traversal, 10 kB, empty and NUL-containing URL strings; "
+               "real CRLs with chosen next-update times; the stored file is corrupted on disk) and TLC validates every observation; returned "
+               "CRLs are compared byte-for-byte with the stored DER and the sandbox parent is snapshotted for containment.",
+    level_note="Trusted: TLC, crypto/x509 CRL parsing. Expiry is exercised with next-update one hour in the past / ten days in the future "
+               "(no equality with the clock). A bit flip is applied where it makes the file malformed (first DER byte).",
+    rule="cases = all operation histories of the bounded alphabets; all non-trivial (contain stores and reads); distinct = distinct history",
+    exhaustive=True,
+    phases=[
+        dict(name="histories", gen=dict(module="MC_CRLCache_C15", cfg=c15_cfg, select=slicer(60000)), drive=dict(driver="crl-seq"),
+             validate=dict(module="Trace_CRLCacheSeq", cfg=C15_TRACE)),
+        dict(name="urls", gen=dict(module="MC_CRLCache_C15", cfg=c15_cfg_wide, select=take_all), drive=dict(driver="crl-seq"),
+             validate=dict(module="Trace_CRLCacheSeq", cfg=C15_TRACE)),
+    ],
+)
